@@ -19,6 +19,10 @@ pub fn int_spelling_texts(t: IntTy) -> Vec<(String, String, String)> {
         ("lit-hex", "0x10".into(), "0x10".into()),
         ("lit-bin", "0b101".into(), "0b101".into()),
         ("lit-oct", "0o17".into(), "0o17".into()),
+        ("not-lit", "!0".into(), "!0".into()),
+        ("not-lit-7", "!7".into(), "!7".into()),
+        ("not-const", "!KA".into(), "!KA".into()),
+        ("neg-neg-lit", "-(-7)".into(), "-(-7)".into()),
         ("lit-suffixed", format!("7{n}"), format!("7{n}")),
         ("lit-suffixed-minus-const", format!("70{n} - KA"), format!("70{n} - KA")),
         ("lit-leading-shift", "1 << 4".into(), "1 << 4".into()),
@@ -95,6 +99,12 @@ pub fn float_spelling_texts(ty: &str) -> Vec<(String, String, String)> {
         ("lit-suffixed", format!("7.5{ty}"), format!("7.5{ty}")),
         ("lit-int-suffixed", format!("7{ty}"), format!("7{ty}")),
         ("lit-rounding", "16777217".into(), "16777217.0".into()),
+        // many-digit literals a hair beside an f32 rounding midpoint: the value is what the inner type's own
+        // literal parsing gives (one rounding), not a detour through a wider type
+        ("lit-f32-midpoint-above", "16777217.0000000001".into(), "16777217.0000000001".into()),
+        ("lit-f32-midpoint-below", "1.00000005960464477".into(), "1.00000005960464477".into()),
+        ("lit-f32-midpoint-neg", "-1.0000001788139343261718751".into(), "-1.0000001788139343261718751".into()),
+        ("lit-many-digits", "0.1000000014901161193847656250000001".into(), "0.1000000014901161193847656250000001".into()),
         ("lit-subnormal", "1e-310".into(), "1e-310".into()),
         ("lit-overflowing", "1e400".into(), format!("{ty}::INFINITY")),
         ("lit-type-max", if ty == "f32" { "3.4028235e38".to_string() } else { "1.7976931348623157e308".to_string() }, format!("{ty}::MAX")),
@@ -449,6 +459,8 @@ pub fn decls(seed: u64, thorough: bool) -> Vec<Decl> {
             must_reject(Inner::Int(t), kind, text, class);
         }
         for (inner, kind, text, class) in [
+            (Inner::F32, 1, "!1.5", "not-on-float"),
+            (Inner::F64, 0, "!0.0", "not-on-float"),
             (Inner::F32, 1, "1e39", "literal-out-of-range"),
             (Inner::F32, 0, "WIDEF", "const-of-wider-type"),
             (Inner::F32, 3, "1.0f64", "suffixed-literal-of-other-type"),
